@@ -371,6 +371,12 @@ func lengths(thorough bool) []int {
 			}
 		}
 	}
+	// far beyond any fragment size in force (the oracle there is "reported failure or the same payload, never a
+	// silently different one"): encodings that need a second TXT answer (> 250 strings) with each codec, and the
+	// 16-bit limits of a DNS message
+	for _, v := range []int{16384, 32768, 39500, 39600, 40500, 47400, 47500, 48500, 50700, 51500, 52000, 55400, 56000, 60000, 65527, 65528, 65529, 65530, 65531, 65532, 65533, 65535, 65536} {
+		set[v] = true
+	}
 	var out []int
 	for v := range set {
 		out = append(out, v)
